@@ -76,6 +76,10 @@ func Structured(r *rand.Rand, depth int) string {
 		attr := []string{`alias = "x"`, `alias = "nope"`, `alias |= "a"`, `anchor = "x"`, `anchor = ""`, `tag = "!!map"`, `tag = "!!seq"`, `tag = "!!int"`,
 			`tag = "!!null"`, `tag = "!!merge"`, `tag = "!!binary"`, `tag = "!!timestamp"`, `tag = ""`, `style = "flow"`, `style = "literal"`, `style = "nope"`,
 			`line_comment = "\n"`, `head_comment = "#"`, `head_comment = "\n\n"`, `foot_comment = "a\n#b"`, `line_comment |= .`, `key = "k"`}[r.IntN(22)]
+		if r.IntN(3) == 0 {
+			// ... or compared with itself / others (deep equality follows what the node points at)
+			return "(" + tgt + " " + attr + ") | " + []string{". - .", "[.a] - [.a]", "[.[]] | unique", "[.a, .b] - [.a]", ".a - .a", "[.] - [.]", "[.[]] - [.[0]]", ". == .", "[.a] | contains([.a])"}[r.IntN(9)]
+		}
 		return "(" + tgt + " " + attr + ") | " + Structured(r, depth-1)
 	}
 	switch r.IntN(12) {
